@@ -350,6 +350,26 @@ def gen_system(rng, maxn=3, maxL=32, soft_ok=True, distinct=True):
         sd['share' if how < 0.2 else 'setunset'] = True
     return sd
 
+def scale_length(sd, u):
+    """the same system with every length multiplied by u (metres instead of reduced units ...): spacing, diameters, contact distances, ranges,
+    cut-offs and bond lengths x u, number densities / u^3; tabulated omegas are per grid index and stay.  Dimensionless results are unchanged,
+    real-space functions keep their values at the same grid index, cost(x u) = u cost(x)."""
+    import copy
+    out = copy.deepcopy(sd)
+    if out.get('dom') is not None: out['dom'] = [sd['dom'][0], sd['dom'][1] * u]
+    out['diam'] = [None if d is None else d * u for d in sd['diam']]
+    out['dens'] = [None if v is None else v / u ** 3 for v in sd['dens']]
+    for pr in out['pairs'].values():
+        P = pr.get('pot')
+        if P is not None:
+            if P[1] is not None: P[1] = P[1] * u
+            if P[0] == 'exp': P[3] = P[3] * u
+            if P[0] in ('ljcut', 'ljshift'): P[3] = P[3] * u
+        O = pr.get('om')
+        if O is not None and O[0] in ('gauss', 'fjc', 'ring'): O[2] = O[2] * u
+    out['lunit'] = u
+    return out
+
 def gen_x(rng, sd, kind=None):
     n = sd['n']; L = sd['dom'][0]
     kind = kind or rng.choice(['zero', 'small', 'moderate', 'moderate', 'asym'])
